@@ -1,0 +1,34 @@
+// Copyright © 2024 Attestant Limited.
+// Licensed under the Apache License, Version 2.0 (the "License");
+// you may not use this file except in compliance with the License.
+// You may obtain a copy of the License at
+//
+//     http://www.apache.org/licenses/LICENSE-2.0
+//
+// Unless required by applicable law or agreed to in writing, software
+// distributed under the License is distributed on an "AS IS" BASIS,
+// WITHOUT WARRANTIES OR CONDITIONS OF ANY KIND, either express or implied.
+// See the License for the specific language governing permissions and
+// limitations under the License.
+
+//go:build verif
+
+package standard
+
+import (
+	"context"
+
+	badger "github.com/dgraph-io/badger/v2"
+)
+
+// VerifRaw returns every raw record of the store.
+func (s *Service) VerifRaw(ctx context.Context) (map[[49]byte][]byte, error) {
+	return s.store.FetchAll(ctx)
+}
+
+// VerifPutRaw writes a raw record to the store.
+func (s *Service) VerifPutRaw(_ context.Context, key []byte, value []byte) error {
+	return s.store.db.Update(func(txn *badger.Txn) error {
+		return txn.Set(key, value)
+	})
+}
